@@ -161,10 +161,11 @@ def NANOSEC : Nat := 1000000000
 /-- linux.c:1622-1660 `uv__hrtime`: `t.tv_sec * (uint64_t) 1e9 + t.tv_nsec` in uint64 -/
 def hrtime (sec nsec : Nat) : Nat := (sec * NANOSEC + nsec) % 2 ^ 64
 
-/-- thread.c:863-866: `timeout += uv__hrtime(UV_CLOCK_PRECISE); ts.tv_sec = timeout / NANOSEC;
+/-- thread.c:860-871: `now = uv__hrtime(UV_CLOCK_PRECISE); if (timeout > UINT64_MAX - now)
+    timeout = UINT64_MAX; else timeout += now; ts.tv_sec = timeout / NANOSEC;
     ts.tv_nsec = timeout % NANOSEC;` — returns `(tv_sec, tv_nsec)` -/
 def deadline (now timeout : Nat) : Nat × Nat :=
-  let t := (timeout + now) % 2 ^ 64
+  let t := if timeout > (2 ^ 64 - 1) - now then 2 ^ 64 - 1 else (timeout + now) % 2 ^ 64
   (t / NANOSEC, t % NANOSEC)
 
 /-- the instant (ns on CLOCK_MONOTONIC) a timespec denotes -/
